@@ -60,3 +60,22 @@ def round6_texts():
     out.append(T('l:only_comments_two', '// licence header\n// second line\n'))
     out.append(T('l:comments_before_closing', 'MetaData M {\n    // inside meta, first\n    u8 m `d`,\n    // inside meta, last\n}\n\nroot packet Root {\n    u8 a,\n    // before closing brace\n}\n// after last definition, one\n// after last definition, two\n'))
     return out
+
+
+def truncation_family(tier='quick'):
+    """every prefix of three texts that ends at a token boundary (truncated input), and the texts with one byte replaced by a byte
+    no token starts with (binary input) at a few positions: the syntax-error paths of format and compile"""
+    import re
+    bases = [('full', 'options {\n    LittleEndian = true;\n}\n\nMetaData M {\n    u16 Px `p`,\n    Px Alias `a`,\n}\n\nroot packet Root {\n    u8 k,\n    @lengthOf(Body)\n    u16 Len,\n    match k as Body {\n        1 : Other,\n        [2, 3] : Other,\n    },\n    @leftPad(\'0\')\n    char[4] c `doc`, // tail\n    repeat Sub {\n        string s,\n    },\n    u32 ck @calculatedFrom("CRC32"),\n}\n\npacket Other {\n    Alias a,\n}\n'),
+             ('small', 'root packet R { u8 a, zchar[2] z, Px, repeat Other os `d`, }\npacket Other { }\n')]
+    out = []
+    for name, text in bases:
+        cuts = [m.end() for m in re.finditer(r'[A-Za-z0-9_\[\]@]+|[^\sA-Za-z0-9_]', text)]
+        step = 1 if tier == 'thorough' else 2
+        for i, c in enumerate(cuts[:-1]):
+            if i % step == 0 or name == 'small':
+                out.append(T('t:trunc_%s_%03d' % (name, i), text[:c], wellformed=False))
+        for j, pos in enumerate(range(3, len(text), max(7, len(text) // 12))):
+            for b in ('\x00', '\x7f', '$'):
+                out.append(T('t:bin_%s_%02d_%02x' % (name, j, ord(b)), text[:pos] + b + text[pos + 1:], wellformed=False))
+    return out
